@@ -157,10 +157,30 @@ func verifC05(t *testing.T, r *vfh.Rand, out *vfh.Out) {
 		waits := 20 + r.Intn(100)
 		c05Loop(t, out, min, max, waits)
 	}
+	// a slow consumer
+	for k := vfh.N(30, 400); k > 0; k-- {
+		max := time.Duration(r.Range(4, 60)) * time.Second
+		up := upperMin(max)
+		min := max
+		if up >= 3*time.Second {
+			min = time.Duration(r.Range(3, int64(up/time.Second))) * time.Second
+		}
+		waits := 6 + r.Intn(20)
+		stall := time.Duration(r.Range(int64(time.Second), int64(3*max)))
+		c05LoopStall(t, out, min, max, waits, r.Intn(waits-2), stall)
+	}
 }
 
 func c05Loop(t *testing.T, out *vfh.Out, min, max time.Duration, waits int) {
-	out.Pending(fmt.Sprintf("c05Loop min=%v max=%v waits=%d", min, max, waits))
+	c05LoopStall(t, out, min, max, waits, -1, 0)
+}
+
+// c05LoopStall: as c05Loop, but the consumer of the requests is busy for `stall` before it takes the
+// request that ends wait number stallIdx (the scheduler is slow to take a request off the channel):
+// that one gap is max(wait, stall); every wait the loop chooses AFTERWARDS is again a full
+// [Min, Max] wait — the loop does not try to "catch up".
+func c05LoopStall(t *testing.T, out *vfh.Out, min, max time.Duration, waits, stallIdx int, stall time.Duration) {
+	out.Pending(fmt.Sprintf("c05Loop min=%v max=%v waits=%d stallIdx=%d stall=%v", min, max, waits, stallIdx, stall))
 	synctest.Test(t, func(t *testing.T) {
 		a := NewAdvertiser(NewContext(nil, nil, nil), config.Interface{
 			Name: "vf0", MinInterval: min, MaxInterval: max, Advertise: true,
@@ -170,7 +190,11 @@ func c05Loop(t *testing.T, out *vfh.Out, min, max time.Duration, waits int) {
 		// multicast() starts, which inside the bubble is the bubble's current instant.
 		seed := time.Now().UnixNano()
 		prng := rand.New(rand.NewSource(seed))
-		c := new(vfh.Toks).S("mloop").I(int64(min)).I(int64(max)).N(waits)
+		c := new(vfh.Toks).S("mloop")
+		if stallIdx >= 0 {
+			c = new(vfh.Toks).S("mstall").N(stallIdx).I(int64(stall))
+		}
+		c.I(int64(min)).I(int64(max)).N(waits)
 		for i := 0; i < waits; i++ {
 			var d int64
 			if min != max {
@@ -192,6 +216,9 @@ func c05Loop(t *testing.T, out *vfh.Out, min, max time.Duration, waits int) {
 		first := true
 		got := 0
 		for got < waits {
+			if got == stallIdx && !first {
+				time.Sleep(stall)
+			}
 			ip := <-ipC
 			if ip != netip.IPv6LinkLocalAllNodes() {
 				t.Fatalf("multicast loop requested %s", ip)
